@@ -966,3 +966,21 @@ struct PollProgress {
     /// Whether datagram handling was interrupted early by the work limiter for fairness
     keep_going: bool,
 }
+
+// ---------------------------------------------------------------------------------------------
+// verification probe (read-only; compiled only with `--cfg quinn_rs_quinn_verif`)
+#[cfg(quinn_rs_quinn_verif)]
+impl Endpoint {
+    /// `[connection senders, queued incoming, ref_count, driver_lost, proto open_connections]`
+    pub fn verif_snapshot(&self) -> Vec<i128> {
+        let st = self.inner.state.lock().unwrap();
+        let rc = self.inner.shared.ref_count.load(Ordering::Relaxed);
+        vec![
+            st.recv_state.connections.senders.len() as i128,
+            st.recv_state.incoming.len() as i128,
+            if rc > (usize::MAX >> 1) { -((usize::MAX - rc) as i128) - 1 } else { rc as i128 },
+            st.driver_lost as i128,
+            st.inner.open_connections() as i128,
+        ]
+    }
+}
